@@ -10,6 +10,7 @@ import (
 
 	sdkmath "cosmossdk.io/math"
 	storetypes "cosmossdk.io/store/types"
+	abci "github.com/cometbft/cometbft/abci/types"
 	cmtproto "github.com/cometbft/cometbft/proto/tendermint/types"
 	ethtypes "github.com/ethereum/go-ethereum/core/types"
 
@@ -279,30 +280,46 @@ func c09RunHist(c c09HistCase) (fs []ev.Finding, outcome string) {
 }
 
 // admission: a tx is executed iff its effective price ≥ max(base fee, ⌊min gas price⌋)
+//
+// Lane "" is the Ethereum lane: one tx (legacy or dynamic-fee) whose price is an offset from the floor / the base fee; its fee
+// is always price × gas. The Cosmos lanes (c09_adm.go) add the fee dimension: fees that are not multiples of the gas limit.
+// Mode "" delivers through FinalizeBlock, "check" / "recheck" offer the tx to CheckTx.
 type c09AdmCase struct {
 	MinGas   string `json:"min_gas_price"`
 	AtHeight int    `json:"at_height"` // 1 = first block (base fee may still be below the min gas price), 2 = after one empty block
 	Dynamic  bool   `json:"dynamic"`
 	CapOff   int64  `json:"cap_offset"` // gas price / fee cap = max(b, m) + CapOff  (or b + CapOff when RelBase)
 	RelBase  bool   `json:"relative_to_base_fee"`
-	Tip      string `json:"tip"` // "0" | "1" | "cap"
+	Tip      string `json:"tip"` // eth: "0" | "1" | "cap"; bank-dynext: "0" | "1" | "gap-1" | "gap" | "gap+1" | "floor" (gap = floor − base fee)
+
+	Mode    string   `json:"mode,omitempty"`                // "" deliver | "check" | "recheck"
+	Lane    string   `json:"lane,omitempty"`                // "" eth | "bank" | "multi" | "bank-dynext"
+	BaseFee string   `json:"genesis_base_fee,omitempty"`    // "" = 1 gwei
+	NodeMin string   `json:"node_min_gas_prices,omitempty"` // node-local min-gas-prices (dec coins)
+	Gas     uint64   `json:"gas,omitempty"`                 // Cosmos lanes: gas limit
+	Fees    []string `json:"fees,omitempty"`                // Cosmos lanes: labels of the fee points (nil = all of c09FeePoints)
 }
 
 func c09RunAdm(c c09AdmCase) (fs []ev.Finding, outcome string) {
+	if c.Lane != c09LaneEth {
+		fs, ts := c09RunAdmCosmos(c)
+		if ts == nil && len(fs) == 0 {
+			return nil, "skip"
+		}
+		return fs, c09AdmOutcome(ts)
+	}
 	fail := func(clause, detail string) {
 		fs = append(fs, ev.Finding{Clause: clause, Detail: detail, Replay: map[string]interface{}{"admission": c}})
 	}
-	w := world.New(world.Config{MinGasPrice: c.MinGas, NumWallets: 2, Contracts: StdContracts()})
-	if c.AtHeight == 2 {
-		w.Block(nil)
+	if c.Mode != c09ModeDeliver && c.AtHeight < 2 {
+		return nil, "skip" // the check state exists only after the first commit
 	}
-	ctx := w.Ctx()
-	b := w.App.FeeMarketKeeper.GetBaseFee(ctx).BigInt()
-	m := sdkmath.LegacyMustNewDecFromStr(c.MinGas).TruncateInt().BigInt()
-	floor := new(big.Int).Set(b)
-	if floor.Cmp(m) < 0 {
-		floor = new(big.Int).Set(m)
+	aw, err := c09AdmNewWorld(c, 2)
+	if err != nil {
+		fail("world", err.Error())
+		return fs, "HALT"
 	}
+	w, b, m, floor := aw.w, aw.base, aw.minT, aw.fl
 	ref := floor
 	if c.RelBase {
 		ref = b
@@ -333,20 +350,48 @@ func c09RunAdm(c c09AdmCase) (fs []ev.Finding, outcome string) {
 	} else {
 		td = &ethtypes.LegacyTx{Nonce: 0, GasPrice: capv, Gas: 21000, To: &AddrSink, Value: big.NewInt(1)}
 	}
-	br := w.Block([][]byte{w.EthTx(a, td)})
-	if br.Panic != "" || br.Err != nil {
-		fail("block-executes", fmt.Sprintf("panic=%q err=%v", br.Panic, br.Err))
-		return fs, "HALT"
+	raw := w.EthTx(a, td)
+	desc := fmt.Sprintf("mode=%s height %d base=%s min=%s eff=%s cap=%s dynamic=%v tip=%s", c09ModeName(c.Mode), c.AtHeight, b, m, eff, capv, c.Dynamic, c.Tip)
+	if c.NodeMin != "" {
+		desc += " node-min=" + c.NodeMin
 	}
-	r := br.Res.TxResults[0]
-	executed := r.Code == 0
-	want := eff.Cmp(floor) >= 0
-	desc := fmt.Sprintf("height %d base=%s min=%s eff=%s cap=%s dynamic=%v tip=%s", c.AtHeight, b, m, eff, capv, c.Dynamic, c.Tip)
-	if executed && !want {
+	var executed bool
+	var log string
+	liveFloor := floor
+	if c.Mode == c09ModeDeliver {
+		br := w.Block([][]byte{raw})
+		if br.Panic != "" || br.Err != nil {
+			fail("block-executes", fmt.Sprintf("panic=%q err=%v", br.Panic, br.Err))
+			return fs, "HALT"
+		}
+		r := br.Res.TxResults[0]
+		executed, log = r.Code == 0, r.Log
+	} else {
+		typ := abci.CheckTxType_New
+		if c.Mode == c09ModeRecheck {
+			typ = abci.CheckTxType_Recheck
+		} else if aw.nodeT.Cmp(liveFloor) > 0 {
+			liveFloor = aw.nodeT // the node-local minimum counts in CheckTx(New) only
+		}
+		func() {
+			defer func() {
+				if r := recover(); r != nil {
+					log = "panic: " + fmt.Sprint(r)
+				}
+			}()
+			res, err := w.App.CheckTx(&abci.RequestCheckTx{Tx: raw, Type: typ})
+			if err != nil || res == nil {
+				log = fmt.Sprint("abci error: ", err)
+				return
+			}
+			executed, log = res.Code == 0, res.Log
+		}()
+	}
+	if executed && eff.Cmp(floor) < 0 {
 		fail("no-tx-below-base-fee-or-min-gas-price-executes", desc)
 	}
-	if !executed && want {
-		fail("tx-at-or-above-floor-is-admitted", desc+": "+r.Log)
+	if !executed && eff.Cmp(liveFloor) >= 0 {
+		fail("tx-at-or-above-floor-is-admitted", desc+": "+log)
 	}
 	if executed {
 		return fs, "executed"
@@ -416,18 +461,43 @@ func runC09(replay string) int {
 		}
 	}
 	var adms []c09AdmCase
+	type ethCfg struct {
+		c09AdmCfg
+		h    int
+		mode string
+	}
+	var ecs []ethCfg
 	for _, mgp := range []string{"0", "1000000005.7", "900000000"} {
 		for _, h := range []int{1, 2} {
-			for _, off := range []int64{-2, -1, 0, 1} {
-				for _, rel := range []bool{false, true} {
-					adms = append(adms, c09AdmCase{MinGas: mgp, AtHeight: h, CapOff: off, RelBase: rel})
-					for _, tip := range []string{"0", "1", "cap"} {
-						adms = append(adms, c09AdmCase{MinGas: mgp, AtHeight: h, Dynamic: true, CapOff: off, RelBase: rel, Tip: tip})
-					}
+			ecs = append(ecs, ethCfg{c09AdmCfg{"", mgp, ""}, h, c09ModeDeliver})
+		}
+	}
+	for _, cf := range []c09AdmCfg{{"", "0", ""}, {"", "1000000005.7", ""}, {"3000000000", "1000000000.5", ""}, {"1000000000", "1000000003.5", "1000000007.5" + world.Denom}} {
+		// before the first commit the check state is the empty store (every tx refused): the check modes start at height 2
+		ecs = append(ecs, ethCfg{cf, 2, c09ModeCheck}, ethCfg{cf, 2, c09ModeRecheck})
+		if cf.BaseFee != "" {
+			ecs = append(ecs, ethCfg{cf, 1, c09ModeDeliver}, ethCfg{cf, 2, c09ModeDeliver})
+		}
+	}
+	for _, ec := range ecs {
+		offs := []int64{-2, -1, 0, 1}
+		if ec.NodeMin != "" {
+			offs = []int64{-2, -1, 0, 1, 3, 4, 5} // floor+4 = trunc(node min)
+		}
+		for _, off := range offs {
+			for _, rel := range []bool{false, true} {
+				base := c09AdmCase{MinGas: ec.MinGas, BaseFee: ec.BaseFee, NodeMin: ec.NodeMin, AtHeight: ec.h, Mode: ec.mode, CapOff: off, RelBase: rel}
+				adms = append(adms, base)
+				for _, tip := range []string{"0", "1", "cap"} {
+					d := base
+					d.Dynamic, d.Tip = true, tip
+					adms = append(adms, d)
 				}
 			}
 		}
 	}
+	nEthAdm := len(adms)
+	adms = append(adms, c09CosmosAdmCases(run.Thorough())...)
 	run.Sharded(Shards(), func(shard, n int) {
 		if shard == 0 {
 			w := world.New(world.Config{NumWallets: 1})
@@ -492,12 +562,53 @@ func runC09(replay string) int {
 			if i%n != shard {
 				continue
 			}
+			if c.Lane != c09LaneEth {
+				fs, ts := c09RunAdmCosmos(c)
+				if i-nEthAdm < n {
+					if fs2, ts2 := c09RunAdmCosmos(c); c09AdmOutcome(ts2) != c09AdmOutcome(ts) || len(fs2) != len(fs) {
+						fmt.Fprintf(os.Stderr, "HARNESS-NONDETERMINISM in C09 admission group %d\n", i)
+						os.Exit(2)
+					}
+				}
+				if ts == nil && len(fs) == 0 {
+					run.Outcome("adm:skip")
+					continue
+				}
+				run.Count("transitions", 1)
+				run.Count("traces_validated_against_impl", 1)
+				run.Count("admission_groups", 1)
+				for _, t := range ts {
+					run.Count("admission_cases", 1)
+					run.Count("admission_cases_cosmos", 1)
+					if !t.Multiple {
+						run.Count("admission_cases_fee_not_multiple_of_gas", 1)
+						if t.Class == "executed" {
+							run.Count("admission_executed_fee_not_multiple_of_gas", 1)
+						} else {
+							run.Count("admission_refused_fee_not_multiple_of_gas", 1)
+						}
+					}
+					cls := t.Class
+					if strings.HasPrefix(cls, "refused-other") && t.Want == "refuse" {
+						cls = "refused-other" // e.g. the zero fee: no fee coin at all
+					}
+					run.Outcome(fmt.Sprintf("adm:%s:%s:want-%s:%s", c.Lane, c09ModeName(c.Mode), t.Want, cls))
+					run.Distinct(fmt.Sprintf("adm:%s:%s:%s:%s:%s:%d:%s:%s", c.Lane, c.Mode, c.BaseFee, c.MinGas, c.NodeMin, c.AtHeight, t.Point.Label, t.Class))
+				}
+				if (i-nEthAdm)%((len(adms)-nEthAdm)/2+1) == 0 {
+					run.Sample(map[string]interface{}{"admission": c, "outcome": c09AdmOutcome(ts)})
+				}
+				for _, f := range fs {
+					run.Fail(f)
+				}
+				continue
+			}
 			fs, oc := c09RunAdm(c)
 			run.Count("transitions", 1)
 			run.Count("traces_validated_against_impl", 1)
 			run.Count("admission_cases", 1)
-			run.Outcome("adm:" + oc)
-			if i%(len(adms)/2+1) == 0 {
+			run.Outcome("adm:eth:" + c09ModeName(c.Mode) + ":" + oc)
+			if i%(nEthAdm/2+1) == 0 {
 				run.Sample(map[string]interface{}{"admission": c, "outcome": oc})
 			}
 			for _, f := range fs {
@@ -508,6 +619,6 @@ func runC09(replay string) int {
 	run.Coverage["states"] = int(run.Counter("transitions")) + int(run.Counter("grid_points"))
 	run.Coverage["evaluations"] = len(grid) + len(hists) + len(adms) + len(c09GovCases())
 	run.Coverage["exhaustive"] = true
-	run.Coverage["rule"] = "grid: full product of 11 base fees (0..2^255) × 10 MaxGas values (−1,0,1,2,3,16,21000,100k,40M,2^63−1) × gas used at {0,1,target−1,target,target+1,limit−1,limit,limit+1,…} × 6 min gas prices, each evaluated by the real CalculateBaseFee on a context with that block gas meter; histories: all 1- and 2-block (thorough: 3-block) sequences of 8 fill levels in worlds MaxGas∈{−1,0,1,100k,40M} × 2 min gas prices through FinalizeBlock; admission: 3 min gas prices × heights {1,2} × price offsets {−2,−1,0,+1} relative to {floor, base fee} × {legacy, dynamic with tip 0/1/cap}; governance: 18 parameter-change histories (proposal with x/feemarket MsgUpdateParams: 3 new min gas prices × 3 new base fees × execution block empty / with a tx), the base fee is compared with floor(min gas price) at the start of every later block. distinct_nontrivial = distinct (input, direction) grid points plus distinct history outcomes"
+	run.Coverage["rule"] = "grid: full product of 11 base fees (0..2^255) × 10 MaxGas values (−1,0,1,2,3,16,21000,100k,40M,2^63−1) × gas used at {0,1,target−1,target,target+1,limit−1,limit,limit+1,…} × 6 min gas prices, each evaluated by the real CalculateBaseFee on a context with that block gas meter; histories: all 1- and 2-block (thorough: 3-block) sequences of 8 fill levels in worlds MaxGas∈{−1,0,1,100k,40M} × 2 min gas prices through FinalizeBlock; admission, Ethereum lane: {legacy, dynamic-fee with tip 0/1/cap} × price offsets {−2,−1,0,+1} (plus +3,+4,+5 = around a node-local minimum) relative to {floor, base fee}, floor = max(base fee, ⌊min gas price⌋), in 3 min gas prices × heights {1,2} through FinalizeBlock and 4 (base fee, min gas price, node min) configurations through FinalizeBlock, CheckTx(New) and CheckTx(Recheck); admission, Cosmos lanes (fee is a free integer, price = fee/gas decided by exact rational arithmetic): lanes {bank MsgSend, 2-message tx, MsgSend with ExtensionOptionDynamicFeeTx and tip ∈ {0,1,gap−1,gap,gap+1,floor}, gap = floor − base fee} × modes {FinalizeBlock at heights 1,2 (thorough: 3), CheckTx(New), CheckTx(Recheck) at height ≥ 2} × 8 (thorough: 14) configurations (base fee above / below / equal to ⌊min gas price⌋, min gas prices x, x.5, x.7, x.999…, tiny and > 2^64 prices, node-local minimum) × gas limits {200000, 199999, 500001, 1234567} (thorough: 11 limits, odd and even) × the fee points R·g, R·g±1, R·g−⌊g/2⌋, R·g−⌊g/2⌋±1, R·g−⌈g/2⌉, (R+1)·g−1 for R ∈ {floor, base fee, ⌊min gas price⌋, ⌊node min⌋}, additionally floor·g−g+1, (floor−1)·g, (floor−1)·g−1, (floor+1)·g, (floor+1)·g−⌊g/2⌋, ⌈D·g⌉, ⌈D·g⌉−1 for the un-truncated min gas price D; every group is one block / one CheckTx series of one tx per wallet; executed ⇒ fee/gas ≥ floor and the price really paid (balance decrease − amount sent)/gas ≥ floor, refused ⇒ sender balance, sequence, recipients unchanged and the whole state (except the fee market store) equals a twin world that got only the executed txs; governance: 18 parameter-change histories (proposal with x/feemarket MsgUpdateParams: 3 new min gas prices × 3 new base fees × execution block empty / with a tx), the base fee is compared with floor(min gas price) at the start of every later block. distinct_nontrivial = distinct (input, direction) grid points plus distinct history outcomes"
 	return run.Finish()
 }
